@@ -1030,6 +1030,55 @@ def __dropRepeatedAutomaticStyles(doc):
         else:
             seen.setdefault(key, xml.getvalue())
 
+def __endOfDoctype(xmlpart):
+    """
+    finds where the document type declaration of an XML text ends
+    @param xmlpart unicode string: some XML code
+    @return the index behind the declaration; 0 when there is none; the
+    length of the text when it does not end
+    """
+    n = len(xmlpart)
+    i = 0
+    # the prolog: XML declaration, processing instructions, comments
+    while i < n:
+        if xmlpart.startswith(u'<?', i):
+            j = xmlpart.find(u'?>', i)
+            if j < 0: return n
+            i = j + 2
+        elif xmlpart.startswith(u'<!--', i):
+            j = xmlpart.find(u'-->', i + 4)
+            if j < 0: return n
+            i = j + 3
+        elif xmlpart.startswith(u'<!DOCTYPE', i):
+            break
+        elif xmlpart[i] in u' \t\r\n\ufeff':
+            i += 1
+        else:
+            return 0
+    # the declaration: quoted literals, the internal subset in brackets,
+    # comments and processing instructions inside it
+    depth = 0
+    quote = None
+    while i < n:
+        c = xmlpart[i]
+        if quote:
+            if c == quote: quote = None
+        elif xmlpart.startswith(u'<!--', i):
+            j = xmlpart.find(u'-->', i + 4)
+            if j < 0: return n
+            i = j + 2
+        elif xmlpart.startswith(u'<?', i):
+            j = xmlpart.find(u'?>', i)
+            if j < 0: return n
+            i = j + 1
+        elif c in u'"\'': quote = c
+        elif c == u'[': depth += 1
+        elif c == u']': depth -= 1
+        elif c == u'>' and depth == 0:
+            return i + 1
+        i += 1
+    return n
+
 def __fixXmlPart(xmlpart):
     """
     fixes an xml code when it does not contain a set of requested
@@ -1043,22 +1092,7 @@ def __fixXmlPart(xmlpart):
                          u'svg', u'fo',u'draw', u'table',u'form')
     # the declarations belong into the root element: never into a document
     # type declaration that precedes it
-    start = 0
-    pos = xmlpart.find(u'<!DOCTYPE')
-    if pos >= 0:
-        start = len(xmlpart)
-        depth = 0
-        quote = None
-        for i in range(pos, len(xmlpart)):
-            c = xmlpart[i]
-            if quote:
-                if c == quote: quote = None
-            elif c in u'"\'': quote = c
-            elif c == u'[': depth += 1
-            elif c == u']': depth -= 1
-            elif c == u'>' and depth == 0:
-                start = i + 1
-                break
+    start = __endOfDoctype(xmlpart)
     # attributes are separated by white space of any kind, not only by a blank
     firstDeclaration = re.compile(u'[ \t\r\n]xmlns:')
     for prefix in requestedPrefixes:
